@@ -63,6 +63,8 @@ def plan(ctx):
         prof = PROFILES[i % len(PROFILES)]
         n = ctx.pick(250, 6000) if prof == 'deep' else ctx.pick(700, 25000)
         shards.append(('doc', prof, n, i))
+    shards.append(('doc', 'flat', ctx.pick(25, 600), 16))
+    shards.append(('doc', 'wide', ctx.pick(150, 3000), 17))
     return [('shard_docs', shards)]
 
 
